@@ -5,6 +5,9 @@ import MidnightZK.Proofs.C11.Toy
 import MidnightZK.Proofs.C11.Weierstrass
 import MidnightZK.Proofs.C11.Codec
 import MidnightZK.Proofs.C11.JubjubField
+import MidnightZK.Proofs.C11.Batch
+import MidnightZK.Proofs.C11.Flags
+import MidnightZK.Model.C11.Batch
 import MidnightZK.Model.C11.Params
 import MidnightZK.Model.C11.Codec
 import MidnightZK.Gen.C11Constants
@@ -168,6 +171,109 @@ theorem ext_is_identity_iff [DecidableEq F] (P : Ext F) (hP : P.z ≠ 0) :
 
 example : (Ext.identity : Ext Toy.K).isIdentity = true :=
   (ext_is_identity_iff _ identity_spec.1.z_ne).2 identity_spec.2
+
+/-- `JubjubExtended::is_torsion_free` (`self.multiply(FR_MODULUS_BYTES).is_identity()`; also
+`JubjubAffine::is_torsion_free`, `CofactorGroup::is_torsion_free`, `into_subgroup`, the subgroup
+decoder): true exactly when the affine double-and-add schedule over the bits of `r` sends the
+affine value of `P` to the neutral point, i.e. `[r]P = O`. -/
+theorem ext_is_torsion_free_iff [DecidableEq F] {d : F} (hc : Complete d) (P : Ext F) (hP : WF P)
+    (oP : EOn d P.toAffine) (r : Nat) :
+    P.isTorsionFree (d + d) r = true ↔
+      eMulBits (-1) d (scalarBits r) P.toAffine (0, 1) = (0, 1) := by
+  obtain ⟨w, -, e⟩ := multiply_spec hc P hP oP r
+  unfold Ext.isTorsionFree
+  rw [ext_is_identity_iff _ w.z_ne, e]
+
+/-- Non-vacuity: the hypotheses are satisfiable (toy curve over `ZMod 13`). -/
+example : Toy.P.isTorsionFree ((2 : Toy.K) + 2) 5 = true ↔
+    eMulBits (-1) 2 (scalarBits 5) Toy.P.toAffine (0, 1) = (0, 1) :=
+  ext_is_torsion_free_iff Toy.complete Toy.P Toy.P_wf Toy.P_on 5
+
+/-- `JubjubExtended::is_small_order` (`self.double().double().u == 0`): true exactly when the
+affine value of `[4]P` has `u = 0` (i.e. `[4]P ∈ {(0, 1), (0, -1)}`, i.e. `[8]P = O`). -/
+theorem ext_is_small_order_iff [DecidableEq F] {d : F} (hc : Complete d) (P : Ext F) (hP : WF P)
+    (oP : EOn d P.toAffine) :
+    let dbl := fun p : F × F => eAdd (-1) d p p
+    P.isSmallOrder = true ↔ (dbl (dbl P.toAffine)).1 = 0 := by
+  intro dbl
+  obtain ⟨w1, e1⟩ := ext_double_spec hc P hP oP
+  have o1 : EOn d P.double.toAffine := by rw [e1]; exact edwards_add_closed hc oP oP
+  obtain ⟨w2, e2⟩ := ext_double_spec hc _ w1 o1
+  have hz := w2.z_ne
+  have hi := Lean.Grind.Field.mul_inv_cancel hz
+  have key : (dbl (dbl P.toAffine)).1 = P.double.double.u * P.double.double.z⁻¹ := by
+    show (eAdd (-1) d (eAdd (-1) d P.toAffine P.toAffine) (eAdd (-1) d P.toAffine P.toAffine)).1 = _
+    rw [← e1, ← e2]; rfl
+  rw [key]
+  unfold Ext.isSmallOrder
+  simp only [decide_eq_true_eq]
+  constructor
+  · intro h; rw [h]; grind
+  · intro h
+    have : P.double.double.u = P.double.double.u * P.double.double.z⁻¹ * P.double.double.z := by
+      grind
+    rw [this, h]; grind
+
+example : (Ext.identity : Ext Toy.K).isSmallOrder = true := by decide
+
+/-- `impl Sum for JubjubExtended` / `JubjubSubgroup` (`iter.fold(identity, |acc, x| acc + x)`):
+for every list (any length, any mix of identity / equal / opposite / small-order points, in any
+representation) the result is well-formed, on the curve, and its affine value is the left fold
+of the affine law over the affine values. -/
+theorem ext_sum_spec {d : F} (hc : Complete d) (ps : List (Ext F))
+    (hps : ∀ p ∈ ps, WF p ∧ EOn d p.toAffine) :
+    WF (Batch.jjSum (d + d) ps) ∧ EOn d (Batch.jjSum (d + d) ps).toAffine ∧
+    (Batch.jjSum (d + d) ps).toAffine = eSum (-1) d (ps.map Ext.toAffine) := by
+  have h := Batch.jjSum_fold hc ps hps Ext.identity identity_spec.1
+    (by rw [identity_spec.2]; exact EOn_zero d)
+  rw [identity_spec.2] at h
+  exact h
+
+example : (Batch.jjSum ((2 : Toy.K) + 2) [Toy.P, Toy.Q, Toy.P]).toAffine
+    = eSum (-1) 2 ([Toy.P, Toy.Q, Toy.P].map Ext.toAffine) :=
+  (ext_sum_spec Toy.complete _ (by
+    intro p hp
+    simp only [List.mem_cons, List.not_mem_nil, or_false] at hp
+    rcases hp with rfl | rfl | rfl
+    · exact ⟨Toy.P_wf, Toy.P_on⟩
+    · exact ⟨Toy.Q_wf, Toy.Q_on⟩
+    · exact ⟨Toy.P_wf, Toy.P_on⟩)).2.2
+
+/-! ## Shared-inversion batch routines -/
+
+/-- `ff::BatchInverter::invert_with_internal_scratch` and `ff::BatchInvert::batch_invert` (the
+two-pass "Montgomery trick" behind `JubjubExtended::batch_normalize`, the free function
+`batch_normalize` and `JubjubAffine::batch_from_bytes`), modelled pass by pass with its zero
+skips: for EVERY list — any length, zeros in any positions — entry `i` of the result is `zᵢ⁻¹`
+(`0` stays `0`), although only one inversion is performed. -/
+theorem batch_invert_spec [DecidableEq F] (zs : List F) : Batch.batchInvert zs = zs.map (·⁻¹) :=
+  Batch.batchInvert_eq_map zs
+
+example : Batch.batchInvert [(2 : Toy.K), 0, 3, 3, 0] = [2, 0, 3, 3, 0].map (·⁻¹) :=
+  batch_invert_spec _
+
+/-- `JubjubExtended::batch_normalize` (and `Curve::batch_normalize`, the free function
+`batch_normalize`): element-wise equal to `JubjubAffine::from` for every slice, including
+`Z = 0` entries (which are mapped to `(0, 0)` instead of panicking). -/
+theorem jj_batch_normalize_spec [DecidableEq F] (ps : List (Ext F)) :
+    Batch.jjBatchNormalize ps = ps.map Ext.toAffine ∧
+    Batch.jjBatchNormalizeInPlace ps = ps.map (fun p => ofAffine p.toAffine) := by
+  refine ⟨Batch.jjBatchNormalize_eq ps, ?_⟩
+  unfold Batch.jjBatchNormalizeInPlace
+  rw [Batch.jjBatchNormalize_eq, List.map_map]
+  rfl
+
+example : Batch.jjBatchNormalize [Toy.P, Toy.Q] = [Toy.P.toAffine, Toy.Q.toAffine] :=
+  (jj_batch_normalize_spec _).1
+
+/-- `derive/curve.rs: Curve::batch_normalize` (BN254 G1/G2; hand-written two passes with the
+`is_identity` skip): element-wise equal to `to_affine` for every slice, identities anywhere. -/
+theorem bn_batch_normalize_spec [DecidableEq F] (ps : List (Bn.Proj F)) :
+    Batch.bnBatchNormalize ps = ps.map Bn.toAffine := Batch.bnBatchNormalize_eq ps
+
+example : Batch.bnBatchNormalize [(⟨1, 2, 1⟩ : Bn.Proj Toy.K), ⟨0, 1, 0⟩, ⟨2, 4, 2⟩]
+    = [Bn.toAffine ⟨1, 2, 1⟩, Bn.toAffine ⟨0, 1, 0⟩, Bn.toAffine ⟨2, 4, 2⟩] :=
+  bn_batch_normalize_spec _
 
 /-! ## Short-Weierstrass types: `derive/curve.rs` (BN254, pure Rust) and the G1/G2 wrappers -/
 section weierstrass
@@ -451,6 +557,103 @@ theorem ed_decode_canonical_partial (bs : List Nat) (p : Fp Params.edP × Fp Par
   edDecodeGen_canonical_partial (by decide) (by decide) _ bs p hn hy h hx
 
 example : edDecode (1 :: List.replicate 31 0) = some (⟨0⟩, ⟨1⟩) := by decide +kernel
+
+/-! ### Sign, infinity and canonicity flags -/
+
+/-- The `Fp2` sign convention of the BLS12-381 G2 encodings (`c1` first, `c0` only when
+`c1 = 0`) is a genuine sign: it flips under negation of every non-zero canonical element. -/
+theorem fp2_lex_sign_neg {p : Nat} (hodd : p % 2 = 1) (y : Fp2 p) (hy : y.Canon)
+    (h0 : y.c0.v ≠ 0 ∨ y.c1.v ≠ 0) : (-y).lexLargest = !y.lexLargest :=
+  Fp2.lexLargest_neg hodd hy h0
+
+example : (-(⟨⟨0⟩, ⟨1⟩⟩ : Fp2 7)).lexLargest = !(⟨⟨0⟩, ⟨1⟩⟩ : Fp2 7).lexLargest :=
+  fp2_lex_sign_neg (by decide) _ ⟨by decide, by decide⟩ (Or.inr (by decide))
+
+/-- `G1Affine::from_compressed[_unchecked]` / `G2Affine::…` (`blst_p{1,2}_uncompress`): the sign
+flag `0x20` of an accepted finite point is the lexicographic sign of the decoded `y` — over `Fp`
+for G1, over `Fp2` (`c1` first) for G2. PARTIAL only in the side condition `y ≠ 0` (a point with
+`y = 0` has order two; BLS12-381 has none, which is not proved here). -/
+theorem bls_sign_flag_is_lex_sign_partial :
+    (∀ (b : Fp Params.blsP) bs x y, blsUncompress (fpCodec Params.blsP 48) b bs = some (some (x, y)) →
+      y ≠ 0 → (y.lexLargest = true ↔ bs.headD 0 &&& 0x20 ≠ 0)) ∧
+    (∀ (b : Fp2 Params.blsP) bs x y, blsUncompress (fp2Codec Params.blsP 48) b bs = some (some (x, y)) →
+      y ≠ 0 → (y.lexLargest = true ↔ bs.headD 0 &&& 0x20 ≠ 0)) :=
+  ⟨fun b bs x y h hy =>
+      blsUncompress_sign (fpCodec_signLaw Params.blsP 48 (by decide) (by decide)) b bs x y h hy,
+   fun b bs x y h hy =>
+      blsUncompress_sign (fp2Codec_signLaw Params.blsP 48 (by decide) (by decide)) b bs x y h hy⟩
+
+/-- Flipping the sign flag of a compressed G1/G2 string never yields a second encoding of the same
+point: if both strings are accepted, the decoded `y` differ. -/
+theorem bls_sign_flip_decodes_differently {K : Type} [CoordField K] [DecidableEq K] [OfNat K 0]
+    {c : FieldCodec K} {canon : K → Prop} (law : SignLaw c canon) (b : K) (bs bs' : List Nat)
+    (x y x' y' : K) (h : blsUncompress c b bs = some (some (x, y)))
+    (h' : blsUncompress c b bs' = some (some (x', y'))) (hy : y ≠ 0) (hy' : y' ≠ 0)
+    (hflip : ¬ (bs.headD 0 &&& 0x20 ≠ 0 ↔ bs'.headD 0 &&& 0x20 ≠ 0)) : y ≠ y' :=
+  blsUncompress_sign_flip law b bs bs' x y x' y' h h' hy hy' hflip
+
+/-- Non-vacuity on the real parameters: the compressed generator of G1 decodes, its `y` is the
+"small" root, and the sign flag is clear. -/
+example : blsUncompress (fpCodec Params.blsP 48) (4 : Fp Params.blsP)
+      (natToBe 48 (Params.g1GenX + 2 ^ 383))
+    = some (some (⟨Params.g1GenX⟩, ⟨Params.g1GenY⟩)) := by decide +kernel
+
+/-- `x ≥ p` (after masking the flag bits) is rejected by the compressed decoders of G1 and G2
+(for G2: either coefficient; `c1` comes first and carries the flags). -/
+theorem bls_decode_rejects_noncanonical_x (p size : Nat) (bs : List Nat)
+    (h40 : bs.headD 0 &&& 0x40 = 0) :
+    (∀ b : Fp p, beToNat bs % 2 ^ (8 * size - 3) ≥ p → blsUncompress (fpCodec p size) b bs = none) ∧
+    (∀ b : Fp2 p, (beToNat (bs.take size) % 2 ^ (8 * size - 3) ≥ p ∨ beToNat (bs.drop size) ≥ p) →
+      blsUncompress (fp2Codec p size) b bs = none) :=
+  ⟨fun b hx => blsUncompress_rejects_x_ge_p p size b bs h40 hx,
+   fun b hx => blsUncompress_rejects_x_ge_p_fp2 p size b bs h40 hx⟩
+
+example : blsUncompress (fpCodec Params.blsP 48) (4 : Fp Params.blsP) (natToBe 48 (Params.blsP + 2 ^ 383))
+    = none :=
+  (bls_decode_rejects_noncanonical_x Params.blsP 48 _ (by decide +kernel)).1 _ (by decide +kernel)
+
+/-- Uncompressed decoders of G1/G2 (`blst_p{1,2}_deserialize` behind `from_uncompressed[_unchecked]`):
+the identity is accepted only as `40 00 … 00` (infinity flag alone, every other bit of the string
+zero), and an accepted finite point carries no flag bit at all, has canonical coordinates, is on
+the curve and has `x ≠ 0`. -/
+theorem bls_uncompressed_flag_canonicity {K : Type} [CoordField K] [DecidableEq K] [OfNat K 0]
+    (c : FieldCodec K) (b : K) (bs : List Nat) :
+    (blsDeserialize c b bs = some none →
+      bs.headD 0 &&& 0x80 = 0 ∧ bs.headD 0 &&& 0x40 ≠ 0 ∧ bs.headD 0 &&& 0x3f = 0 ∧
+      allZero (bs.drop 1) = true) ∧
+    (∀ x y, blsDeserialize c b bs = some (some (x, y)) →
+      bs.headD 0 &&& 0xe0 = 0 ∧ c.ofBe 3 (bs.take c.size) = some x ∧
+      c.ofBe 0 (bs.drop c.size) = some y ∧ y * y = rhs b x ∧ x ≠ 0) :=
+  ⟨blsDeserialize_infinity c b bs, fun x y => blsDeserialize_finite c b bs x y⟩
+
+example : blsDeserialize (fpCodec Params.blsP 48) (4 : Fp Params.blsP) (0x40 :: List.replicate 95 0)
+    = some none := by decide
+
+/-- `serde.rs: Compressed::decode` for BN254 G1/G2 (`TwoSpare`, flags in the last byte): the
+identity flag is accepted only together with `x = 0` and a clear sign flag (then the result is
+the identity); without it `x = 0` is never accepted. -/
+theorem bn_decode_flag_checks {K : Type} [CoordField K] [DecidableEq K] [OfNat K 0]
+    (c : FieldCodec K) (b : K) (bs : List Nat) (P : WPoint K) (h : bnDecode c b bs = some P) :
+    (bs.getLastD 0 &&& 0x40 ≠ 0 →
+      P = none ∧ bs.getLastD 0 &&& 0x80 = 0 ∧ c.ofLe 0 (setLast bs (· &&& 0x3f)) = some 0) ∧
+    (bs.getLastD 0 &&& 0x40 = 0 → ∃ x y, P = some (x, y) ∧ x ≠ 0 ∧
+      c.ofLe 0 (setLast bs (· &&& 0x3f)) = some x) :=
+  bnDecode_flags c b bs P h
+
+example : bnDecode (fpCodec Params.bnP 32) (3 : Fp Params.bnP) (List.replicate 31 0 ++ [0x40])
+    = some none := by decide
+
+/-- `K256::from_bytes` / `K256Affine::from_bytes`: an accepted finite point has `x < p` read from
+bytes 1…32, and its tag is `02 + (y mod 2)`: the wrong tag decodes to the other root, never to
+the same point. PARTIAL only in the side condition `y ≠ 0` (secp256k1 has no such point; not
+proved here). -/
+theorem secp_decode_tag_is_parity_partial (bs : List Nat) (x y : Fp Params.secpP)
+    (h : secpDecode bs = some (some (x, y))) (hy : y.v ≠ 0) :
+    beToNat (bs.drop 1) < Params.secpP ∧ x.v = beToNat (bs.drop 1) ∧ bs.headD 0 = 2 + y.v % 2 :=
+  secpDecode_tag_parity bs x y h hy
+
+example : secpDecode (2 :: natToBe 32 Params.secpGenX)
+    = some (some (⟨Params.secpGenX⟩, ⟨Params.secpGenY⟩)) := by decide +kernel
 
 end codecs
 
